@@ -385,9 +385,30 @@ def run_task(task):
     # the time box is C20's subject: here the clock never runs out
     R(r'(?:std::time::)?Instant::now', lambda ex, a, m: Opaque('instant'))
     R(r'(?:std::time::|core::time::)?Duration::from_secs', lambda ex, a, m: Opaque('dur', a[0]))
-    R(r'(?:std::time::)?Instant::elapsed', lambda ex, a, m: Opaque('dur', 0))
-    R(r'<(?:std::time::|core::time::)?Duration as PartialOrd>::(gt|lt|ge|le)', lambda ex, a, m: {'gt': deref(a[0]).data > deref(a[1]).data, 'lt': deref(a[0]).data < deref(a[1]).data,
-                                                                                              'ge': deref(a[0]).data >= deref(a[1]).data, 'le': deref(a[0]).data <= deref(a[1]).data}[m.group(1)])
+    if task.get('clock'):
+        # C20: the clock is a solver variable - every read returns an arbitrary later instant, so the pass at which the time box fires is
+        # the solver's choice; what the propagation has attached when it is cut short must still be sound (checked by the same post conditions)
+        NT = 48
+        tsv = [z3.Int('clock%d' % i) for i in range(NT)]
+        for i, t_ in enumerate(tsv): h.inputs['clock%d' % i] = t_
+        base += [tsv[0] >= 0] + [tsv[i] <= tsv[i + 1] for i in range(NT - 1)]
+        def elapsed(ex, a, m):
+            k = ex.notes.get('clock_reads', 0)
+            if k >= NT: raise Unsupported('more than %d clock reads' % NT)
+            ex.notes['clock_reads'] = k + 1
+            return Opaque('dur', tsv[k])
+        R(r'(?:std::time::)?Instant::elapsed', elapsed)
+        def dur_cmp(ex, a, m):
+            x = deref(a[0]).data; y = deref(a[1]).data
+            r = {'gt': zint(x) > zint(y), 'lt': zint(x) < zint(y), 'ge': zint(x) >= zint(y), 'le': zint(x) <= zint(y)}[m.group(1)]
+            r = simp(r); r = ex.decide(r) if is_sym(r) else r
+            if r and m.group(1) == 'gt': ex.notes['fired'] = ex.notes.get('fired', 0) + 1
+            return r
+        R(r'<(?:std::time::|core::time::)?Duration as PartialOrd>::(gt|lt|ge|le)', dur_cmp)
+    else:
+        R(r'(?:std::time::)?Instant::elapsed', lambda ex, a, m: Opaque('dur', 0))
+        R(r'<(?:std::time::|core::time::)?Duration as PartialOrd>::(gt|lt|ge|le)', lambda ex, a, m: {'gt': deref(a[0]).data > deref(a[1]).data, 'lt': deref(a[0]).data < deref(a[1]).data,
+                                                                                                  'ge': deref(a[0]).data >= deref(a[1]).data, 'le': deref(a[0]).data <= deref(a[1]).data}[m.group(1)])
     S = pr.crates['structure']
     build = pr.find('build_basic_blocks', crate='structure')
     domnew = pr.method(None, 'DominatorTree', 'new')
